@@ -26,7 +26,7 @@ LEVEL_TEXT = ("For each history variant (what happens x protocol v4/v2 x Cluster
               "shutdown call itself (seeded).")
 LEVEL_NOTE = ("Trusted base: sim/world.py (switches only at synchronisation points), sim/node.py. A step is one scheduling decision of the "
               "world; the prefix up to step k is identical for all k (same seed), the interleaving of the shutdown call with the driver's "
-              "threads after step k is chosen by the seeded chooser. cluster.scheduler is the world's SimScheduler (the driver's own "
+              "threads after step k is chosen by the seeded chooser (random preemption at odd k+seed, none at even). cluster.scheduler is the world's SimScheduler (the driver's own "
               "_Scheduler thread is not exercised). The connection class lowers max_in_flight in the 'trash' variant only.")
 QUICK_WORKERS = 4
 WORKERS = 14
@@ -354,6 +354,10 @@ def run_history(seed, variant, k):
             return R, env
         R['steps'] = ch.n
         ch.k = INF
+        if k < INF and (k + seed) % 2 == 0:
+            # every other step: the shutdown call itself runs without being preempted (the thread it interrupted stays where it was until
+            # shutdown blocks or returns); the other steps keep the seeded random interleaving of the shutdown call with the driver's threads
+            ch.inner.p_preempt = 0.0
         if k >= INF:
             # measuring run: the history ran to its end
             with w.inspect():
